@@ -276,6 +276,37 @@ example : (match parseTracksR ⟨[(0, [{ type := ev_INS, param := 77, on := 0, o
 example : ErrSite ⟨[]⟩ [{ type := ev_INS, param := 77, on := 0, off := 0, ref := some ⟨0, 2⟩ }]
     { err := .insMissing, ref := some ⟨0, 2⟩, msg := "" } := .own _ initR _ (.refl _) rfl
 
+/-- which command a converter error is about: the event a writer step hands to `event_hook` is the
+event that step fetched (so the error's reference, which is the fetched event's, is that of the
+event the hook was converting) — except on the final pass of a loop, where a fetched `LOOP_BREAK`
+is replaced by the loop's `LOOP_END` event while the reference stays the `LOOP_BREAK`'s -/
+theorem C17_hook_item_is_fetched (song : Song) (root : List Event) (lh : Bool) (s st' : Player.PState)
+    (it : Player.TraceItem) (h : Player.stepTrace song root lh s = .ok (st', some (some it))) :
+    it.ev = Player.fetch (codeOf song root s.core.track) s.core.position ∨
+    (Player.fetch (codeOf song root s.core.track) s.core.position).kind = .loopBreak :=
+  stepTrace_item_fetched song root lh s st' it h
+
+example : ∃ st' it, Player.stepTrace { tracks := [] } [{ type := ev_INS, param := 77, on := 0, off := 0 }] false Player.initState =
+    .ok (st', some (some it)) ∧ it.ev = { type := ev_INS, param := 77, on := 0, off := 0 } := ⟨_, _, rfl, rfl⟩
+
+/-- … and `event_hook` itself (nesting fuel aside) only fails for six kinds of events; for an
+instrument command the error is "wrong type" or "doesn't exist" of that instrument, for a `%`
+command "not defined" of that command, for a pitch envelope "doesn't exist", for a note outside
+drum mode "out of range"; the other three (`JUMP`, drum-mode `NOTE`, `PAN_ENVELOPE`) convert
+another track and pass its failure on.  Together with `C17_converter_error_ref`: such an error
+carries the position of the instrument / `%` / envelope / note command it is about -/
+theorem C17_hook_error_event (song : Song) (d : Mds.DataInfo) (fuel : Nat) (c : Mds.Conv) (w : Mds.WState)
+    (it : Player.TraceItem) (x : Mds.WErr) (h : Mds.hook song d fuel c w it = .error x) :
+    x = .fuel ∨ HookErrAbout it w.drumEnabled x :=
+  hook_error_event song d fuel c w it x h
+
+example : (match Mds.hook { tracks := [] } { insType := [], envelopeMap := [] } 1 {} { drumEnabled := false, inDrum := false, trackId := 0 }
+    { ev := { type := ev_INS, param := 77, on := 0, off := 0 }, on := 0, off := 0, insideLoop := false, insideJump := false } with
+    | .error x => decide (x = .insMissing)
+    | .ok _ => false) = true := by
+  simp only [Mds.hook]
+  decide +kernel
+
 /-! ### `what()` -/
 
 /-- the text is `file:line+1:col+1: msg` cut at 199 characters; with a null reference the first 199
